@@ -29,11 +29,11 @@ theorem kth_prev_prime (e : It.Env) (he : GenSpec e) (start hint k : ℕ) (init 
 
 /-- one `next_prime()` under the forward invariant: the smallest prime `≥ m`, nothing skipped or repeated -/
 theorem next_prime_step (e : It.Env) (he : GenSpec e) (s : St) (m : ℕ) (h : FwdInv s m) (hex : ∃ p, p.Prime ∧ m ≤ p ∧ p ≤ umax) :
-    ∃ q s', nextPrime e s = .ok (q, s') ∧ IsNext m q ∧ FwdInv s' (q + 1) := nextPrime_step e he s m h hex
+    ∃ q s', nextPrime e s = .ok (q, s') ∧ IsNextP m q ∧ FwdInv s' (q + 1) := nextPrime_step e he s m h hex
 
 /-- one `prev_prime()` under the backward invariant: the largest prime `≤ t` -/
 theorem prev_prime_step (e : It.Env) (he : GenSpec e) (s : St) (t : ℕ) (h : BwdInv s t) (hex : ∃ r, r.Prime ∧ r ≤ t) :
-    ∃ p s', prevPrime e s = .ok (p, s') ∧ IsPrev t p ∧ BwdInv s' (p - 1) := prevPrime_step e he s t h hex
+    ∃ p s', prevPrime e s = .ok (p, s') ∧ IsPrevP t p ∧ BwdInv s' (p - 1) := prevPrime_step e he s t h hex
 
 /-- the walk of nth_prime.cpp:106-128 for EVERY approximation `a ∈ [0, 2^63)` — a prime, below 2, `π a = n` exactly, off by any
     distance in either direction — and every `ilog` outcome (= every stop hint): it ends on the n-th prime -/
